@@ -1,12 +1,16 @@
 """C10 evolution kernels are trivial at equal couplings and compose where exact.
 
-Four exhaustive products over the coupling lattice:
+Five exhaustive products over the coupling lattice:
   id        every dispatcher (non-singlet, singlet, QED non-singlet / singlet / valence), every method, order, nf,
             tower, a: kernel(a <- a) = identity
   comp-ns   non-singlet exact / expanded / ordered-truncated: E(a2<-a1) E(a1<-a0) = E(a2<-a0) on ALL triples
             (a0,a1,a2) of the lattice (incl. forward-and-back a2=a0)
   comp-lo   the leading-order singlet kernel, same triples, non-commuting 2x2 gamma_0
-  comp-it   the iterated singlet kernel: the composition defect must lie within its own discretisation error
+  comp-it   the iterated singlet kernel: the composition defect must lie within its own discretisation error, which is
+            that of a second-order scheme (defect <= 1e-2 at 20 steps and it shrinks by >= 3 when the steps are doubled)
+  near-id   every singlet method evaluated for real (the dispatcher returns np.eye at a1 == a0 without touching a kernel):
+            a1 = a0 (1 + eps), eps = 1e-6, 1e-9, 1e-12, both directions: |kernel - 1| <= 4 |a1 - a0| / a0, i.e. the kernel formula itself
+            tends to the identity at coinciding couplings
 The oracle is the algebraic statement itself (no reference formula is needed).
 """
 
@@ -19,19 +23,30 @@ LEVEL = "exploration"
 TECHNIQUE = "exhaustive lattice of coupling triples; algebraic identities (identity at a1=a0, semigroup law) checked on each"
 LEVEL_TEXT = (
     "on every point of the finite lattice (all methods/orders/nf, fixed complex towers, every coupling value resp. "
-    "every ordered triple of the coupling lattice) the kernel at equal couplings is the identity to 1e-12 and the "
-    "exactly-composing kernels satisfy the semigroup law to 1e-12 relative; the iterated singlet kernel violates it "
-    "by no more than 10x its self-estimated discretisation error"
+    "every ordered triple of the coupling lattice) the kernel at equal couplings is the identity to 1e-13 and the "
+    "exactly-composing kernels satisfy the semigroup law to 1e-13 relative; the iterated singlet kernel violates it "
+    "by no more than 10x its self-estimated discretisation error, by no more than 1e-2 at >= 20 steps, and the defect "
+    "shrinks by >= 3 when the steps are doubled (second order); every singlet method, evaluated at a1 = a0 (1 +- eps) "
+    "down to eps = 1e-12, is within 4 |a1-a0|/a0 of the identity"
 )
 LEVEL_NOTE = (
     "no external reference needed; kernels are called through their dispatchers (the singlet dispatcher's a1==a0 "
-    "shortcut is part of what is tested); QED stepped kernels are given constant coupling lists"
+    "shortcut is part of what is tested, and because it hides every singlet kernel formula at a1 == a0 the formulas are "
+    "additionally evaluated next to the coincidence point); QED stepped kernels are given constant coupling lists"
 )
 FLOOR_NONTRIVIAL = 50
 
-TOL = 1e-12
+TOL = 1e-13  # measured maxima: identity 1.1e-16, composition 9.9e-16
 LA = [0.002, 0.005, 0.0125, 0.03, 0.05]
-LA_THOROUGH = [0.002, 0.003, 0.005, 0.008, 0.0125, 0.02, 0.03, 0.04, 0.05]
+LA_THOROUGH = [0.002, 0.003, 0.005, 0.008, 0.0125, 0.02, 0.03, 0.04, 0.05, 0.1]
+# iterated kernel: absolute cap on the composition defect at >= 20 steps and the factor by which it must shrink when the
+# number of steps is doubled (second order: 4, first order: 2); defects below the floor are rounding dominated
+IT_CAP = 1e-2
+IT_SHRINK = 3.0
+IT_FLOOR = 1e-9
+# near-identity: |K(a0 (1+eps) <- a0) - 1| <= NEAR_BOUND * |a1 - a0| / a0  (measured: 0.17 up to a = 0.05, 0.31 at a = 0.1)
+NEAR_EPS = [1e-6, 1e-9, 1e-12]
+NEAR_BOUND = 4.0
 NFS = [3, 4, 5, 6]
 
 T = [
@@ -222,6 +237,35 @@ def evaluate(case):
                     if not d <= TOL:
                         res.fail(sig, f"nf={nf} tower={case['tower']} a0={a0} a1={a1} a2={a2}: E21.E10={(e21 @ e10).tolist()} E20={e20.tolist()} rel.dev={d:.3e}")
         res.info = {"max_composition_dev_lo_singlet": mx, "points": npts}
+    elif kind == "near-id":
+        o = case["order"]
+        worst = 0.0
+        for a in la:
+            for ti, tw in enumerate(S):
+                G = np.array(tw[:o], dtype=np.complex128)
+                for m in M:
+                    for it, mo in ((1, 10), (4, max(o, 2))):
+                        sig = f"singlet.dispatcher/near-identity/order={o}/method={m.name}"
+                        for eps in NEAR_EPS:
+                            a1 = a * (1.0 + eps)
+                            rel = abs(a1 - a) / a
+                            for af, ai in ((a1, a), (a, a1)):
+                                try:
+                                    e = np.array(s.dispatcher((o, 0), m, G.copy(), af, ai, nf, it, (mo, 0)))
+                                    d = float(np.max(np.abs(e - np.eye(2))))
+                                except Exception as ex:  # noqa
+                                    res.fail(sig + "/raises", f"{type(ex).__name__}: {ex} a0={ai} a1={af} nf={nf} tower={ti} it={it} max_order={mo}")
+                                    continue
+                                npts += 1
+                                if np.isfinite(d):
+                                    worst = max(worst, d / rel)
+                                if not d <= NEAR_BOUND * rel:
+                                    res.fail(
+                                        sig,
+                                        f"a0={ai} a1={af} (relative distance {rel:.3e}) nf={nf} tower={ti} it={it} max_order={mo}: "
+                                        f"max|kernel-1|={d:.3e} > {NEAR_BOUND} x {rel:.3e}; kernel={e.tolist()}",
+                                    )
+        res.info = {"max_near_identity_dev_over_relative_distance": worst, "points": npts}
     else:  # comp-it
         o = case["order"]
         G = np.array(S[case["tower"]][:o], dtype=np.complex128)
@@ -229,6 +273,7 @@ def evaluate(case):
         it = case["iterations"]
         sig = f"singlet.eko_iterate/composition/order={o}"
         big = 0.0
+        shrink = 0.0
         for a1 in la:
             for a2 in la:
                 try:
@@ -255,7 +300,22 @@ def evaluate(case):
                         f"nf={nf} tower={case['tower']} a0={a0} a1={a1} a2={a2} iterations={it}: composition defect {defect:.3e} > 10 x "
                         f"self-estimated discretisation error {est:.3e}",
                     )
-        res.info = {"max_iterate_defect_over_bound": mx, "max_iterate_defect_abs": big, "points": npts}
+                # the self-estimate alone accepts any convergent scheme: the documented one is of second order
+                defect2 = float(np.max(np.abs(c2 - d2)))
+                if not defect <= IT_CAP:
+                    res.fail(
+                        f"singlet.eko_iterate/composition-cap/order={o}",
+                        f"nf={nf} tower={case['tower']} a0={a0} a1={a1} a2={a2} iterations={it}: composition defect {defect:.3e} > {IT_CAP}",
+                    )
+                if defect > IT_FLOOR and np.isfinite(defect2):
+                    shrink = max(shrink, defect2 / defect)
+                    if not defect2 * IT_SHRINK <= defect:
+                        res.fail(
+                            f"singlet.eko_iterate/composition-order/order={o}",
+                            f"nf={nf} tower={case['tower']} a0={a0} a1={a1} a2={a2}: composition defect {defect:.3e} at {it} iterations, "
+                            f"{defect2:.3e} at {2 * it}: shrinks by {defect / defect2:.2f} only (second-order scheme: 4)",
+                        )
+        res.info = {"max_iterate_defect_over_bound": mx, "max_iterate_defect_abs": big, "max_iterate_defect_doubled_over_defect": shrink, "points": npts}
     res.outcome = f"{kind}:" + ("holds" if not res.fails else "VIOLATED")
     res.nontrivial = npts > 0
     return res
@@ -268,6 +328,7 @@ def run(ctx):
         for nf in NFS:
             for a in la:
                 cases.append({"kind": "id", "order": o, "nf": nf, "la": [a]})
+                cases.append({"kind": "near-id", "order": o, "nf": nf, "la": [a]})
             for t in range(len(T)):
                 for a0 in la:
                     cases.append({"kind": "comp-ns", "order": o, "nf": nf, "tower": t, "a0": a0, "la": la})
@@ -289,13 +350,20 @@ def run(ctx):
         "(2 (iterations, max_order) settings) + QED non-singlet/singlet(4x4)/valence(2x2) at QED order 1-2 with 1 and 3 constant steps. "
         "comp-ns: ALL ordered triples (a0,a1,a2) of the lattice x order 1-4 x nf x 6 towers x {exact, expanded, ordered-truncated}. "
         "comp-lo: all triples x nf x 3 non-commuting gamma_0 (reached through two different methods). comp-it: all triples of the "
-        f"5-value lattice x order 2-4 x nf x towers, iterations {its} vs doubled. a case = one (kind, order, nf, tower, a0) resp. (id, order, nf, a); non-trivial = all"
+        f"5-value lattice x order 2-4 x nf x towers, iterations {its} vs doubled (self-estimate, absolute cap {IT_CAP}, shrink factor >= {IT_SHRINK} "
+        f"wherever the defect exceeds {IT_FLOOR}). near-id: every a x order 1-4 x nf x 8 methods x 3 non-commuting towers x 2 (iterations, max_order) "
+        f"settings x eps in {NEAR_EPS} x both directions (a1 = a(1+eps) <- a and a <- a(1+eps)). "
+        "a case = one (kind, order, nf, tower, a0) resp. (id | near-id, order, nf, a); non-trivial = all"
     )
     ctx.assumptions += [
         "'identity at equal couplings' is tested through the dispatchers (QED: equal scales too, since the pure-QED factor depends on "
         "the scales); calling singlet.lo_exact / *_decompose_* directly with a1 == a0 is outside the statement (0/0 in the "
         "projector formula, guarded by the dispatcher shortcut)",
         "'composes up to its discretisation error' := defect at n iterations <= 10 x (change of both sides when going to 2n "
-        "iterations) + 1e-12",
+        f"iterations) + {TOL}; the discretisation is the documented one (midpoint rule on a geometric grid, second order): defect <= "
+        f"{IT_CAP} (measured maximum 9.7e-4 at 20 steps) and defect(2n) <= defect(n)/{IT_SHRINK} (measured 1/3.99) where defect(n) > {IT_FLOOR}",
+        "'identity when the couplings coincide' is read for the singlet kernels as a property of the kernel formulas, not only of the "
+        f"dispatcher shortcut: max|K(a(1+eps) <- a) - 1| <= {NEAR_BOUND} x relative distance (measured 0.31: the kernels are Lipschitz there with "
+        "constant |gamma(a)/beta(a)| a); whether the slope equals the generator gamma/beta is NOT judged here (C07/C08/C12)",
         "interpreted mode (NUMBA_DISABLE_JIT=1)",
     ]
